@@ -17,11 +17,13 @@ CLAIMS = {
         "Contracts on the real printers: StringLiteral.__str__ (for every value: quoted with a quote that does not occur in it, no escapes -- z3/cvc5 string theory); "
         "BooleanExpression.__str__ executed symbolically by pyvc on an instance of every (class, parent class, side, right-edge) combination the printer's parenthesisation decision depends on (501 trees over the real expression classes), "
         "each printed condition regrouped by the parser's grouping function (lemma L-Pratt, contracts/C04_lemma.md, real PRECEDENCES table) and compared with the tree; "
+        "Path.__str__ prints a segment bare only if it is a property name and not in the expression tokenizer's real keyword table (const-evaluated from the source each run), else bracketed with a quote that does not occur in it; "
+        "container nodes (case/if/unless/block) print exactly their tag markup around their children's texts in list order (70 obligations over child-kind sequences up to length 3); "
         "tag printers (pyvc-flow): open/close with their own tag's name, print every field the render method uses through that field's printer, add no stray braces. "
         "The round trip through the regular-expression lexers (parses, renders identically on 5 data sets, second serialisation identical) is a bounded run-time contract over ~1000 (quick) / ~5000 (thorough) generated templates.",
         "deductive contracts on printers (pyvc symbolic execution, z3/cvc5) + structural printer obligations (pyvc-flow) + bounded round-trip contract",
         "DESIGN.md section 4 C04; contracts/C04_lemma.md",
-        "Lemma L-Pratt is pen-and-paper; the lexers are not modelled. Known finding: nil prints as the empty string (pinned by the test suite).",
+        "Lemma L-Pratt is pen-and-paper; the lexers are not modelled; float literal printing is bounded only. Known finding: nil prints as the empty string (pinned by the test suite).",
     ),
     "C11": (
         "proof",
@@ -130,9 +132,10 @@ CLAIMS = {
     "C26": (
         "other",
         "The plural count kernel _count is verified for all values (integers incl. 0 and 1 are their own count; None/booleans/non-numeric text mean no count). "
-        "That the filters substitute only %(name)s placeholders (regex substitution, never printf formatting of the whole message) and that the tag doubles % in literal text are structural obligations on the real source. "
-        "The substitution result itself depends on regular-expression semantics, which no contract here can decide; it is decided by a bounded exhaustive contract check (all messages of <= 2, thorough 3, pieces over a 17-piece alphabet x 5 filters, plural forms x counts, tag messages) against a reference substitution written from the statement.",
-        "contract-based verification of the count kernel + structural obligations + bounded exhaustive contract check (labelled bounded)",
+        "Filters: the t filter's plural/context wiring and message escaping, format_message on constant texts with arbitrary values (real re semantics on constants), keyword arguments shadow the context. "
+        "Tag: validate_message_block builds exactly literal text with % doubled and one %(name)s per variable with no parenthesis in a name (7 node shapes, z3 strings); _format_message formats ANY wellformed text exactly once and never lacks a variable (abstract printf model; mapping __getitem__ executed for an arbitrary key); gettext picks the plural text exactly when there is a plural block and count != 1; resolve_count is total; both render twins wire count -> resolve_count -> gettext -> _format_message -> output. "
+        "That the filters substitute only %(name)s placeholders and that the tag doubles % in literal text are also structural obligations. Regular-expression and printf semantics on arbitrary texts are decided by a bounded exhaustive contract check (all filter messages of <= 2, thorough 3, pieces over a 17-piece alphabet x 5 filters; all tag messages of <= 2, thorough 3, adjacent pieces over 13 pieces, sync and async; plural forms x counts) against references written from the statement.",
+        "contract-based deductive verification (count kernel, tag text lemma, abstract printf model, render wiring; z3 strings) + structural obligations + bounded exhaustive contract check (labelled bounded)",
         "DESIGN.md section 4 C26",
         "",
     ),
@@ -174,7 +177,9 @@ CLAIMS = {
         "raises-set contracts, for all argument values of the tagged union (JSON-like data incl. inf/nan floats, huge ints, arbitrary strings), on the conversion helpers (to_int, int_arg, num_arg, decimal_arg), "
         "on 47 registered filters as the composition decorator-wrapper(inner) built by executing the real decorators (string, math, misc, extra), and on RangeLiteral._make_range, LoopExpression._to_int, TablerowNode._int_or_zero and to_liquid_string: "
         "no exception outside the LiquidError hierarchy escapes; builtins raise per the stated CPython contracts (int(inf) OverflowError, ceil(nan) ValueError, Decimal text InvalidOperation, bytes.decode UnicodeDecodeError ...). "
-        "Array filters behind the recursive flatten generator, date, the node/parser layer and the extra (babel/translate) filters are outside the executor's reach and are covered by a bounded fuzz (every registered filter x 29 hostile values x 0..2 arguments, 21 tag templates x pool^2 x 3 modes, malformed sources).",
+        "Node layer (escape lemma): render_to_output and render_to_output_async of 25 node classes executed symbolically with sub-expressions, child blocks and template loading as arbitrary callees (any value or any LiquidError) and the real RenderContext helpers inlined: only LiquidError/LiquidInterrupt leave the method; RenderContext.get/get_async/get_item(_async), lookup_warning for every error class, the translate tag's argument helpers. "
+        "CPython's int->str digit limit is modelled for every C02 contract (ValueError for |n| >= a symbolic INT_STR_LIMIT >= 2**64), which found and led to the repair of five escapes of ValueError. "
+        "Array filters have raises-set contracts on their kernels; date, the parser layer, extends/block/call nodes and the babel filters are outside the executor's reach and are covered by a bounded fuzz (every registered filter x 29 hostile values x 0..2 arguments, 21 tag templates x pool^2 x 3 modes, malformed sources).",
         "contract-based deductive verification (raises-set contracts over a tagged union, z3/cvc5) + bounded contract check",
         "DESIGN.md section 4 C02",
         "One known finding (babel-backed filters) keeps the level at 'other'.",
@@ -222,7 +227,8 @@ CLAIMS = {
         "RenderContext.__init__ builds the chain [locals, globals, builtin, counters]; extend() makes its namespace innermost inside the block and restores the scope on normal, raising and depth-error exits; "
         "assign() writes exactly locals[key] whatever block namespaces are open (frame over locals/globals/counters/block namespaces); BoundTemplate.make_globals orders render args > front matter > template globals; "
         "Environment.make_globals lets template globals override environment globals in a new dict; increment/decrement touch only the counters namespace; BuiltIn knows exactly now/today. "
-        "A bounded contract check over all 128 binder subsets and 28 path forms stands in for the tag layer.",
+        "The isolated copy made for a rendered partial has exactly [its arguments, the ROOT context's globals] as its chain from calling contexts of depth 0..2 (root, partial, block, partial-in-block, partial-in-partial); the include and render tags evaluate their own expressions (bound variable, arguments) in the caller's context (both twins). "
+        "A bounded contract check over all 128 binder subsets and 28 path forms stands in for the rest of the tag layer.",
         "contract-based deductive verification (frame conditions over map views, z3 arrays/lambdas) + bounded contract check",
         "DESIGN.md section 4 C14",
         "",
